@@ -58,8 +58,9 @@ def eager_helper(*args, **kwargs):
 
 def _record(self, target, args, kwargs):
     LOG.append((type(self).__name__, target, args, kwargs, self))
-    if kwargs.get("fail") is True:
-        raise ValueError("injected constructor failure")
+    if kwargs.get("fail"):
+        raise {"TypeError": TypeError, "KeyError": KeyError, "RuntimeError": RuntimeError, "AssertionError": AssertionError,
+               "LookupError": LookupError, "AttributeError": AttributeError}.get(kwargs["fail"], ValueError)("injected constructor failure")
 
 
 class RecCtrl(Controller):
@@ -138,7 +139,8 @@ def document(draw):
         cand = [i for i, e in enumerate(elems) if e["form"] in ("map", "type")]
         if cand:
             fail_at = draw(st.sampled_from(cand))
-            elems[fail_at]["kwargs"] = [kv for kv in elems[fail_at]["kwargs"] if kv[0] != "fail"] + [["fail", {"s": True}]]
+            kind = draw(st.sampled_from(["ValueError", "TypeError", "KeyError", "RuntimeError", "AssertionError", "LookupError", "AttributeError"]))
+            elems[fail_at]["kwargs"] = [kv for kv in elems[fail_at]["kwargs"] if kv[0] != "fail"] + [["fail", {"s": kind}]]
     doc = {"elems": elems, "fail_at": fail_at, "flow_pipeline": draw(st.integers(0, 5)) == 0,
            "extra": draw(st.one_of(st.none(), values)), "logging": draw(st.integers(0, 4)) == 0,
            "order": draw(st.permutations(["pipeline", "extra", "logging"]))}
@@ -257,7 +259,7 @@ def run_case(doc) -> Result:
             chain = cls.s(*args, **kwargs) >> chain
         if n == 1:
             chain = chain.__construct__()
-    except ValueError as e:
+    except Exception as e:
         py_error = e
     py_log = normalise(mod.LOG)
     # ---- the real thing
